@@ -3,6 +3,7 @@ package main
 import (
 	"fmt"
 	"math"
+	"strings"
 
 	"github.com/tuneinsight/lattigo/v6/circuits/ckks/bootstrapping"
 	"github.com/tuneinsight/lattigo/v6/core/rlwe"
@@ -134,6 +135,28 @@ func defaultScenario(d defaultEntry, logN int, bootstrap bool) engine.Scenario {
 		judgePrecision(c, "default", fmt.Sprintf("%s/N%d", d.name, logN), bits, known)
 		c.Outcome(name, int(bits))
 	}}
+}
+
+// thresholdScenarios: the prime layout of the shipped N15 sets (every residual prime well below 60 bits, a 60-bit
+// SlotsToCoeffs prime on top of them) with the homomorphic decoding evaluated as ONE matrix of 2^10 slots, i.e. more
+// than 30 baby steps accumulated lazily at a level whose prime is larger than every prime below it. Overflow margins,
+// lazy-reduction counters and baby-step/giant-step splits that are right for the small shapes of the other scenarios
+// can only go wrong past this size (a few seconds per leaf).
+func thresholdScenarios(tier string) []engine.Scenario {
+	var scs []engine.Scenario
+	for _, d := range defaultCatalogue() {
+		// the two N15 sets: positions 3 of the sparse and of the dense slice
+		if d.scheme.LogN != 15 {
+			continue
+		}
+		if tier == "quick" && !strings.Contains(d.name, "Dense") {
+			continue // ~6 s per leaf: one of the two in the quick tier
+		}
+		d.name += "+S2C-one-60-bit-matrix"
+		d.btp.SlotsToCoeffsFactorizationDepthAndLogScales = [][]int{{60}}
+		scs = append(scs, defaultScenario(d, 11, true))
+	}
+	return scs
 }
 
 func defaultScenarios(tier string) []engine.Scenario {
